@@ -40,6 +40,8 @@ SKELS = [
     dict(name="sz-double-bond-between-descriptor-atoms", text="N{[<][<]C=C[>][>]}|schulz_zimm(60,50)|O", hi=66),
     dict(name="sz-two-open-ends-two-endgroups", text="{[][<]CC(C[<])[>]; [>]O, [>]N, [<]F[]}|schulz_zimm(60,50)|", hi=45),
     dict(name="sz-dollar-blocks-saturated-linker", text="{[][$]CC[$]; [$]F[$]}|schulz_zimm(60,50)|C(C)(C)C{[$][$]CCC[$]; [$]Br[]}|schulz_zimm(60,50)|", hi=40),
+    dict(name="sz-ab2-no-endgroup-two-blocks", text="C{[>][<]CC(CO[>])O[>][<]}|schulz_zimm(120,100)|{[>][<]CCS[>][<]}|schulz_zimm(90,70)|", hi=40, hi_thorough=80),
+    dict(name="sz-ring-endgroup", text="{[][<]CC[>]; [<]C1CCCCC1, [>]N[]}|schulz_zimm(60,50)|", hi=45),
     dict(name="sz-branch-unit", text="N{[<][<]CC(C)[>][>]}|schulz_zimm(60,50)|[Si]", hi=80),
 ]
 
@@ -193,7 +195,7 @@ def run_case(case, g, tier, res):
         roles = gen.symbolize_weights(c, mol)
         obs = gen.Observer()
         gen.install_observers(g, obs)
-        gen.DRAW_FN[0] = gen.symbolic_draw({}, skel["hi"] + (28 if tier == "thorough" else 0))  # thorough: one more unit per block
+        gen.DRAW_FN[0] = gen.symbolic_draw({}, skel.get("hi_thorough", skel["hi"] + 28) if tier == "thorough" else skel["hi"])  # thorough: one more unit per block
         gen.OBS[0] = obs
         rng = SymRng(zero_threshold=1e-200)
         from symx import npshim
